@@ -111,7 +111,7 @@ pub fn case_fn(_sub: &str, case: &Case, stats: &mut Stats) -> Result<(), String>
     let cl = clusters_nfa(&st.clusters, cfg);
     let trie = automaton_nfa(&st.trie, cfg, false);
     let min = automaton_nfa(&st.minimized, cfg, false);
-    let mut inconclusive = |why: String, stats: &mut Stats| {
+    let inconclusive = |why: String, stats: &mut Stats| {
         stats.inconclusive(&why, || json!({"tcs": case.tcs, "cfg": cfg.tag()}));
     };
     let diff = |a: &Nfa, b: &Nfa| compare_default(a, b);
